@@ -48,7 +48,7 @@ CFG = dict(
          "added/removed by other software in Felix's table and in other tables, QueueResync/QueueResyncIface, clock steps, "
          "Apply with failures injected (through the mock's FailNext* flags) at chosen calls: connect, LinkList, RouteList "
          "(error/EINTR), LinkByName (error/not found), per-interface RouteList, RouteReplace, RouteDel, one-shot or hitting "
-         "the inline retry too; 1 in 6 histories opens with a directed scenario (flap + listing failure; move + replace failure); "
+         "the inline retry too, and whole-table dumps that yield part of the routes, are overtaken by an outside deletion/replacement of a yielded route and fail with EINTR; 1 in 4 histories opens with a directed scenario (flap + listing failure; move + replace failure; route vanishing mid-dump); "
          "every history ends with failure-free Applies.  Non-trivial = at least two Applies and at least one injected failure "
          "hit, link change or outside route; distinct by (configuration, operation list)",
     trusted=["Coq 8.16.1 kernel + vm_compute",
